@@ -74,15 +74,29 @@ class DictRepo:
         return copy.deepcopy(self.d)
 
 
+def _repo(d, cfg):
+    """The library's own DslStrRepository on the YAML text of the document (so that the shipped loading path,
+    including anything keyed on the document text, is what runs); DictRepo only if the text cannot be produced."""
+    try:
+        import yaml
+        from jobshoplab.compiler.repos import DslStrRepository
+        text = yaml.safe_dump(d, sort_keys=False, default_flow_style=False, allow_unicode=True)
+        if yaml.safe_load(text) != d:
+            return DictRepo(d)
+        return DslStrRepository(text, "error", cfg)
+    except Exception:  # noqa
+        return DictRepo(d)
+
+
 def compile_dict(d, cfg):
     from jobshoplab.compiler import Compiler
-    c = Compiler(cfg, loglevel="error", repo=DictRepo(d))
+    c = Compiler(cfg, loglevel="error", repo=_repo(d, cfg))
     return c.compile()
 
 
 def make_compiler(d, cfg):
     from jobshoplab.compiler import Compiler
-    return Compiler(cfg, loglevel="error", repo=DictRepo(d))
+    return Compiler(cfg, loglevel="error", repo=_repo(d, cfg))
 
 
 # ----------------------------------------------------------------------------------------
